@@ -4,6 +4,7 @@ import XcpProofs.MirrorExample
 import XcpProofs.Overlay
 import XcpProofs.MultiSource
 import XcpProofs.MultiSourceExample
+import XcpProofs.EndToEnd
 /-! # C02 — exit 0 implies the destination tree mirrors the selected source tree
 
 Model slice: `targetBase` (cp's mapping rule), `walkEntry` (one operation per selected entry, by kind),
@@ -215,5 +216,52 @@ theorem several_sources_hypotheses_are_satisfiable (texts : GiTexts) :
         (MultiSourceExample.items0.map (·.path)) = ⟨.ok, fs'⟩ ∧
       FsEq fs' { MultiSourceExample.fs0 with root := MultiSourceExample.expectedRoot } :=
   MultiSourceExample.multi_instance texts
+
+
+/-- END TO END, in terms of the function the correspondence check runs against the real program: the invocation
+`xcp -r s1 … sn DEST` (or `-t DEST s1 … sn`) passes main's validation and `L1run` ends with every source overlaid at
+`DEST/basename`, under the hypotheses of `several_sources_each_mirrored` -/
+theorem whole_invocation_mirrors_its_sources (fs : Fs) (o : Opts) (texts : GiTexts) (dest : RPath) (items : List CopySrc) (fuel : Nat)
+    (hd : o.cfg.dereference = false) (hn : o.cfg.noClobber = false) (hg : o.cfg.gitignore = false)
+    (hnt : o.cfg.noTargetDir = false) (hrec : o.cfg.recursive = true) (hglob : o.glob = false)
+    (hpaths : (o.targetDir = none ∧ o.paths = items.map (·.path) ++ [dest]) ∨
+      (o.targetDir = some dest ∧ o.paths = items.map (·.path)))
+    (hne : items ≠ [])
+    (hwf : FsEq fs fs)
+    (hdest : PlainTarget fs dest) (hdd : ∃ es, fs.root.getAt dest.names = some (.dir es))
+    (hfuel : fuel < walkFuel)
+    (hsrc : ∀ e ∈ items, PlainTarget fs e.path ∧ e.path.fileName = some e.base ∧
+      fs.root.getAt e.path.names = some e.node ∧ e.node.Copyable fuel ∧ e.path.names.length + walkFuel < 256)
+    (hnd : (items.map (·.base)).Nodup)
+    (hun : ∀ e ∈ items, ∀ e' ∈ items,
+      ¬ e.path.names <+: dest.names ++ [e'.base] ∧ ¬ dest.names ++ [e'.base] <+: e.path.names)
+    (hcomp : ∀ e ∈ items, Compatible (fs.root.getAt (dest.names ++ [e.base])) e.node)
+    (hlen : dest.names.length + 1 + walkFuel < 256) :
+    validate fs o = .ok (items.map (·.path), dest) ∧
+    ∃ fs', L1run fs o texts = ⟨.ok, fs'⟩ ∧
+      FsEq fs' { fs with root := overlayAll fs.root dest.names items fs.root } :=
+  ⟨validate_multi fs o dest items fuel hn hnt hrec hglob hpaths hne hdest hdd hsrc hun hcomp hlen,
+   l1run_overlay fs o texts dest items fuel hd hn hg hnt hrec hglob hpaths hne hwf hdest hdd hfuel hsrc hnd hun hcomp hlen⟩
+
+/-- `xcp -r S NEW`: the destination does not exist, its parent does: the whole invocation ends with the source tree at NEW -/
+theorem whole_invocation_to_a_new_name (fs : Fs) (o : Opts) (texts : GiTexts) (src dest : RPath) (srcNode : Node) (fuel : Nat)
+    (hd : o.cfg.dereference = false) (hn : o.cfg.noClobber = false) (hg : o.cfg.gitignore = false)
+    (hrec : o.cfg.recursive = true) (hglob : o.glob = false)
+    (htd : o.targetDir = none) (hpaths : o.paths = [src, dest])
+    (hwf : FsEq fs fs) (hroot : fs.root.isDir = true)
+    (hsrc : PlainTarget fs src) (hsn : fs.root.getAt src.names = some srcNode)
+    (hcop : srcNode.Copyable fuel) (hfuel : fuel < walkFuel)
+    (htb : PlainTarget fs dest) (hne : dest.names ≠ []) (habs : fs.root.getAt dest.names = none)
+    (hpar : ∃ es, fs.root.getAt dest.names.dropLast = some (.dir es))
+    (hun1 : ¬ src.names <+: dest.names) (hun2 : ¬ dest.names <+: src.names)
+    (hlen : src.names.length + walkFuel < 200 ∧ dest.names.length + walkFuel < 200) :
+    ∃ fs', L1run fs o texts = ⟨.ok, fs'⟩ ∧ FsEq fs' { fs with root := fs.root.setAt dest.names srcNode } :=
+  l1run_fresh_single fs o texts src dest srcNode fuel hd hn hg hrec hglob htd hpaths hwf hroot hsrc hsn hcop hfuel htb hne habs hpar hun1 hun2 hlen
+
+/-- the end-to-end statement on the concrete two-source instance -/
+theorem whole_invocation_instance (texts : GiTexts) :
+    ∃ fs', L1run MultiSourceExample.fs0 MultiSourceExample.o0 texts = ⟨.ok, fs'⟩ ∧
+      FsEq fs' { MultiSourceExample.fs0 with root := MultiSourceExample.expectedRoot } :=
+  MultiSourceExample.l1run_instance texts
 
 end Xcp.C02
